@@ -174,7 +174,7 @@ def extract_prints(lines: list[str]) -> list:
     n = len(lines)
     while i < n:
         ln = lines[i]
-        if ln.startswith('<<"'):
+        if ln.startswith('<<"') or ln.startswith('<< "'):
             buf = ln
             j = i
             while not _balanced(buf) and j + 1 < n and j - i < 400:
